@@ -17,11 +17,11 @@ structure SCtx (h h1 hh : Heap) : Prop where
 def IsM (hh : Heap) (x : Addr) (k : Nat) : Prop := ∃ o : Obj, hh[x]? = some o ∧ o.isMut = true ∧ o.sc.kind = k
 
 theorem sctx_write {h h1 hh : Heap} (c : SCtx h h1 hh) {x : Addr} {ox o' : Obj} (hx : h.length ≤ x)
-    (hox : hh[x]? = some ox) (hmx : ox.isMut = true) (hkx : ox.sc.kind ≠ 10) (hm' : o'.isMut = true)
+    (hox : hh[x]? = some ox) (hmx : ox.isMut = true) (hm' : o'.isMut = true)
     (hk' : o'.sc.kind = ox.sc.kind) (ht' : TypedObj hh o') : SCtx h h1 (hh.set x o') := by
   obtain ⟨⟨e, rfl⟩, hinv, hsame⟩ := c
   refine ⟨⟨e.set (x - h.length) o', by rw [List.set_append_right _ _ hx]⟩,
-    invx_write hinv hox hmx hkx hm' hk' ht', ?_⟩
+    invx_write hinv hox hmx hm' hk' ht', ?_⟩
   intro y o1 ho1
   obtain ⟨o, ho, e1, e2⟩ := hsame y o1 ho1
   by_cases hyx : y = x
@@ -32,7 +32,7 @@ theorem sctx_write {h h1 hh : Heap} (c : SCtx h h1 hh) {x : Addr} {ox o' : Obj} 
   · exact ⟨o, by rw [List.getElem?_set_ne (fun e => hyx e.symm)]; exact ho, e1, e2⟩
 
 theorem sctx_alloc {h h1 hh : Heap} (c : SCtx h h1 hh) {o : Obj} (c1 : o.cHash = none) (c2 : o.cPy = none)
-    (ck : o.sc.alwaysImm = true → o.sc.kind ≠ 10 → o.isMut = false)
+    (ck : o.sc.alwaysImm = true → o.isMut = false)
     (ci : o.isMut = false → ∀ r ∈ o.refs, ∃ oc : Obj, hh[r]? = some oc ∧ Frozen oc)
     (ct : TypedObj (hh ++ [o]) o) : SCtx h h1 (hh ++ [o]) := by
   obtain ⟨⟨e, rfl⟩, hinv, hsame⟩ := c
@@ -53,9 +53,6 @@ theorem kindAt_of_same {h h1 hh : Heap} (c : SCtx h h1 hh) {x : Addr} {k : Nat} 
   obtain ⟨o1, ho1, k1⟩ := kindAt_some hk
   obtain ⟨o, ho, _, e2⟩ := c.same x o1 ho1
   simp [kindAt, ho, e2, k1]
-
-theorem applySc_not10 {f : Field} {sc sc' : Scalars} (h : applySc f sc = some sc') : sc.kind ≠ 10 := by
-  cases f <;> cases sc <;> simp [applySc] at h <;> simp [Scalars.kind]
 
 theorem assignAt_inv {hh hh' : Heap} {x : Addr} {f : Field} (ha : assignAt hh x f = some (.ok hh')) :
     ∃ (ox : Obj) (sc' : Scalars), hh[x]? = some ox ∧ ox.isMut = true ∧ applySc f ox.sc = some sc' ∧
@@ -88,7 +85,7 @@ theorem sctx_assign {h h1 hh hh' : Heap} (c : SCtx h h1 hh) {x : Addr} {f : Fiel
   rw [hox] at ho; cases ho
   have hk := applySc_kind hap
   obtain ⟨ks, hks, hok⟩ := c.inv.typed x ox hox
-  exact sctx_write c (hfr (by rw [← e1]; exact hmx)) hox hmx (applySc_not10 hap) (o' := { ox with sc := sc' }) hmx hk
+  exact sctx_write c (hfr (by rw [← e1]; exact hmx)) hox hmx (o' := { ox with sc := sc' }) hmx hk
     ⟨ks, hks, by simp only [refKindsOK, hk]; exact hok⟩
 
 theorem sctx_foldAssign {h h1 : Heap} (f : Field) : ∀ (xs : List Addr) {hh hh' : Heap}, SCtx h h1 hh →
@@ -137,7 +134,7 @@ theorem sctx_setRef {h h1 hh hh' : Heap} (c : SCtx h h1 hh) {a : Addr} (ha : h.l
     subst hok
     obtain ⟨kc, hkc1, hkc2⟩ := mapO_getElem hks j o.refs[j] (List.getElem?_eq_getElem hlt)
     rw [hj] at hkc1; cases hkc1
-    exact sctx_write c ha ho hmo (by rw [hko]; decide) (o' := { o with refs := o.refs.set j y }) hmo rfl
+    exact sctx_write c ha ho hmo (o' := { o with refs := o.refs.set j y }) hmo rfl
       (typed_setSlot (c.inv.typed a o ho) (List.getElem?_eq_getElem hlt) (by rw [hkc2, hy]))
   · cases hs
 
@@ -160,8 +157,7 @@ theorem sctx_listWrite {h h1 hh : Heap} (c : SCtx h h1 hh) {l : Addr} (hl : h.le
     SCtx h h1 (hh.set l { o with refs := items }) ∧ IsM (hh.set l { o with refs := items }) l k := by
   obtain ⟨o2, ho2, hm2, hk2⟩ := hm
   rw [ho] at ho2; cases ho2
-  have h10 : o.sc.kind ≠ 10 := by intro e; rw [← hk2, e] at he; simp [elemKind] at he
-  exact ⟨sctx_write c hl ho hm2 h10 (o' := { o with refs := items }) hm2 rfl ht,
+  exact ⟨sctx_write c hl ho hm2 (o' := { o with refs := items }) hm2 rfl ht,
     ⟨{ o with refs := items }, by simp [List.getElem?_set_self (List.getElem?_eq_some_iff.mp ho).1], hm2, hk2⟩⟩
 
 theorem sctx_appendBlanks {h h1 : Heap} {l : Addr} (hl : h.length ≤ l) : ∀ (n : Nat) {hh hh' : Heap},
@@ -170,7 +166,7 @@ theorem sctx_appendBlanks {h h1 : Heap} {l : Addr} (hl : h.length ≤ l) : ∀ (
   | n + 1, hh, hh', c, hm, ha => by
     rw [appendBlanks_succ] at ha
     have c1 : SCtx h h1 (hh ++ [blankObj]) :=
-      sctx_alloc c rfl rfl (fun _ _ => rfl) (fun _ r hr => by simp [blankObj] at hr) ⟨[], rfl, rfl⟩
+      sctx_alloc c rfl rfl (fun _ => rfl) (fun _ r hr => by simp [blankObj] at hr) ⟨[], rfl, rfl⟩
     obtain ⟨o, ho, hmo, hko⟩ := hm
     have ho1 : (hh ++ [blankObj])[l]? = some o := getElem?_append_of_some [blankObj] ho
     simp only [ho1] at ha
@@ -311,10 +307,10 @@ theorem sigWit_ext {h h1 h10 h12 : Heap} {c vinL voutL : Addr} {ins : List Addr}
   obtain ⟨o0, o1, h0e, a1, a2, _, _⟩ := cx.inv.defaults
   have hk0 : kindAt h10 emptyTuple = some 10 := by simp [kindAt, h0e, a2, Scalars.kind]
   have c11 : SCtx h h1 (h10 ++ [{ isMut := false, sc := .wit, refs := [emptyTuple] }]) := by
-    refine sctx_alloc cx rfl rfl (fun _ _ => rfl) ?_ ⟨[10], ?_, rfl⟩
+    refine sctx_alloc cx rfl rfl (fun _ => rfl) ?_ ⟨[10], ?_, rfl⟩
     · intro _ r hr
       simp only [List.mem_singleton] at hr; subst hr
-      exact ⟨o0, h0e, Or.inl a1⟩
+      exact ⟨o0, h0e, a1⟩
     · simp [mapO, kindAt_append_some _ hk0]
   exact sctx_setRef c11 C.hc (isM_of_same c11 C.cm) (j := 2) (k := 4) rfl
     (by simp [kindAt, Scalars.kind]) hs
